@@ -69,3 +69,28 @@ pub fn rank_try_index(index: usize) -> Option<Rank> {
         None
     }
 }
+
+/// `core::slice::memchr::memrchr` / `memchr` by their definitions (last / first index of
+/// a byte). The library versions branch on pointer alignment, which the model checker
+/// treats as unknown; the definition is what they compute (environment stub, trusted).
+pub fn memrchr_def(x: u8, text: &[u8]) -> Option<usize> {
+    let mut i = text.len();
+    while i > 0 {
+        i -= 1;
+        if text[i] == x {
+            return Some(i);
+        }
+    }
+    None
+}
+
+pub fn memchr_def(x: u8, text: &[u8]) -> Option<usize> {
+    let mut i = 0;
+    while i < text.len() {
+        if text[i] == x {
+            return Some(i);
+        }
+        i += 1;
+    }
+    None
+}
